@@ -1160,3 +1160,30 @@ def split_chained_assignments(fn) -> int:
             i += len(new) - 1
             count += 1
     return count
+
+
+def split_tuple_assignments(fn) -> int:
+    """`a, b = X, Y`  ->  `a = X` ; `b = Y`   when no right-hand side mentions a target name and the targets are plain names"""
+    count = 0
+    for body in _stmt_blocks(fn):
+        i = 0
+        while i < len(body):
+            s = body[i]
+            i += 1
+            if not (isinstance(s, ast.Assign) and len(s.targets) == 1 and isinstance(s.targets[0], (ast.Tuple, ast.List)) and isinstance(s.value, (ast.Tuple, ast.List))
+                    and len(s.targets[0].elts) == len(s.value.elts) and all(isinstance(t, ast.Name) for t in s.targets[0].elts)
+                    and not any(isinstance(v, ast.Starred) for v in s.value.elts)):
+                continue
+            tn = {t.id for t in s.targets[0].elts}
+            if any(isinstance(n, ast.Name) and n.id in tn for v in s.value.elts for n in ast.walk(v)):
+                continue
+            new = []
+            for t, v in zip(s.targets[0].elts, s.value.elts):
+                a = ast.Assign(targets=[t], value=v)
+                ast.copy_location(a, s)
+                ast.fix_missing_locations(a)
+                new.append(a)
+            body[i - 1:i] = new
+            i += len(new) - 1
+            count += 1
+    return count
